@@ -25,6 +25,10 @@ func DerivePublic(priv []byte) (x, y []byte, err error) {
 
 	var pubBytes []byte
 	pubBytes = pub.Bytes_Unsafe()
+	if len(pubBytes) != 65 {
+		// [priv]G is the point at infinity (priv is a multiple of n): there is no public key
+		return nil, nil, errors.New("private key yields the point at infinity")
+	}
 
 	return pubBytes[1:33], pubBytes[33:], nil
 }
@@ -68,6 +72,10 @@ func GenerateKey(rand io.Reader) (priv, x, y []byte, err error) {
 
 	var pubBytes []byte
 	pubBytes = pub.Bytes_Unsafe()
+	if len(pubBytes) != 65 {
+		err = errors.New("private key yields the point at infinity")
+		return
+	}
 
 	return priv, pubBytes[1:33], pubBytes[33:], nil
 }
@@ -104,6 +112,16 @@ func TestPrivateKey(priv []byte) int {
 	if l > 0 {
 		return l
 	}
+
+	// zero is not in [1, n-2]; accumulate over all bytes so that only the verdict depends on the key
+	var acc byte
+	for _, b := range priv {
+		acc |= b
+	}
+	if acc == 0 {
+		return -1
+	}
+
 	if l < 0 {
 		return 0
 	}
